@@ -80,6 +80,43 @@ def cases(seed, tier):
         c["script"][ci]["decisions"] = decs
         c["script"][ci]["final"] = "resume"
         yield c
+    # a two-call history: the first call leaves a status pending in a group it never waits for (a long exposure);
+    # the next call uses the same group name - its 'wait' answers for its own messages only
+    dets = gen.names(specs, "det", "pdet")
+    if len(dets) >= 1:
+        from sim.dsl import SiteCounter, msg
+
+        for j in range(2):
+            S2 = SiteCounter()
+            slow, fast = dets[0], dets[-1]
+            gname = rng.choice(["gX", None]) if False else "gX"
+            first = [msg(S2, "checkpoint"), msg(S2, "trigger", slow, group=gname), msg(S2, "null")]
+            second = [msg(S2, "checkpoint"), msg(S2, "trigger", fast, group=gname)]
+            if rng.random() < 0.5:
+                second += [msg(S2, "wait", None, group=gname, timeout=2.0)]
+            else:
+                second += [msg(S2, "wait", None, group=gname, timeout=2.0, error_on_timeout=False)]
+            second += [msg(S2, "null")]
+            c = {
+                "prop": ID,
+                "seed": seed,
+                "variant": f"group-reused-by-next-call-{j}",
+                "sim": {"handle_cost": 0.0},
+                "re": {},
+                "devices": copy.deepcopy(specs),
+                "suspenders": {},
+                "script": [{"do": "call", "plan": first, "tag": "leaves-status-pending"}, {"do": "call", "plan": second, "main": True}],
+            }
+            for d_ in c["devices"].values():
+                d_.pop("faults", None)
+            c["devices"][slow]["trigger_delay"] = 30.0
+            if fast != slow:
+                c["devices"][fast]["trigger_delay"] = 0.1
+            else:
+                # one detector only: the second exposure is short, the first one (occurrence 0) long
+                c["devices"][slow]["trigger_delay"] = 0.1
+                c["devices"][slow]["faults"] = {"trigger#0": {"kind": "slow", "delay": 30.0}}
+            yield c
 
 
 def _strip_monitor(body):
@@ -102,6 +139,16 @@ def check(res):
     if res.aborted:
         return out
     ctx, world = res.ctx, res.world
+    if str(res.case.get("variant", "")).startswith("group-reused-by-next-call"):
+        res.notes["group_reused_by_next_call"] = 1
+        call = [c for c in v.calls if c.api == "call"][-1]
+        if call.outcome != "return":
+            out.append(V("wait-answered-for-another-calls-status", f"the second call's wait on its own (finished) trigger ended {call.outcome}/{call.exc}: {call.end.d['text'][:120]}"))
+        for site, mid, r, at in ctx.responses:
+            e = next((x for x in v.of("msg") if x.d["mid"] == mid), None)
+            if e is not None and e.d["cmd"] == "wait" and e.seq > call.begin.seq and r is not True:
+                out.append(V("wait-answered-for-another-calls-status", f"the second call's wait was answered {r!r} although everything this call put into the group had finished"))
+        return out
     # --- (1) identity with the engine's own response for that message
     ok_results = {}  # mid -> list of summaries of completed executions (for messages)
     for e in v.of("cmd"):
